@@ -360,3 +360,86 @@ def scale_cases(rng):
     out.append("-uid " + "0" * 500 + "7")
     out.append(" ".join("%s %d" % (rng.choice(TIME_KW), i) for i in range(200)))
     return out
+
+
+_HARV = None
+
+
+def harvest_literals():
+    """every string literal of the library's non-test sources, wherever it sits (tables, consts,
+    match arms): robust against restructuring, unlike a scan that looks for tables by shape.
+    Returns {'dash': keyword-like literals, 'format': short literals of find_parser/format.rs,
+    'all_short': every literal of at most 16 characters}"""
+    global _HARV
+    if _HARV is not None:
+        return _HARV
+    import glob, re
+    dash, fmt, short = set(), set(), set()
+    for f in glob.glob("/repo/src/**/*.rs", recursive=True):
+        try:
+            txt = open(f, encoding="utf-8", errors="replace").read()
+        except OSError:
+            continue
+        i = txt.find("#[cfg(test)]")
+        if i >= 0:
+            txt = txt[:i]
+        i = txt.find("#[test]")
+        if i >= 0:
+            txt = txt[:i]
+        for m in re.finditer(r'"((?:[^"\\\n]|\\.){1,16})"', txt):
+            w = m.group(1).replace("\\\\", "\\").replace('\\"', '"')
+            short.add(w)
+            if re.fullmatch(r"-[A-Za-z0-9][A-Za-z0-9-]*", w):
+                dash.add(w)
+            if f.endswith("format.rs"):
+                fmt.add(w)
+        for m in re.finditer(r"'((?:[^'\\\n]|\\.))'", txt):
+            if f.endswith("format.rs"):
+                fmt.add(m.group(1))
+    _HARV = {"dash": sorted(dash), "format": sorted(fmt), "all_short": sorted(short)}
+    return _HARV
+
+
+def harvest_inputs(kinds):
+    """directed inputs built from the harvested literals: (input text, tag)"""
+    h = harvest_literals()
+    out = []
+    if "keywords" in kinds:
+        for w in h["dash"]:
+            for t in (w, w + " a", w + " 1", w + " a b", "-true " + w, "-true " + w + " 1", w + " -true", w + " 1 -true",
+                      "( " + w + " )", "! " + w + " a", w.upper(), w + "x", w[:-1]):
+                out.append((t, "harvest-keyword"))
+    if "format" in kinds:
+        for w in h["format"]:
+            if "'" in w:
+                continue
+            spellings = [w] + ([w.upper(), w.swapcase(), w.capitalize(), w[:-1] + w[-1:].swapcase()] if any(c.isalpha() for c in w) else [])
+            for v in dict.fromkeys(spellings):
+                for t in ("%" + v, "\\" + v, "%{" + v + "}", v, "%" + v + "x", "a%" + v + "%p\\n", "%A" + v, "%C" + v, "%T" + v):
+                    out.append(("-printf '" + t + "'", "harvest-format"))
+    return out
+
+
+def glue_punctuation(rng, words, p=0.7):
+    """join words leaving NO blank next to a self-delimiting token ( ) ! , with probability p per side
+    (whether that preserves the meaning is for the model to say: `x,` is one word after -name)"""
+    out = ""
+    for k, w in enumerate(words):
+        if k > 0:
+            tight = (w in "()!," or words[k - 1] in "()!,") and rng.random() < p
+            out += "" if tight else " "
+        out += w
+    return out
+
+
+def words_with_options(rng, depth=3, nopts=2, **kw):
+    ws = expr_words(rng, depth, **kw)
+    for _ in range(rng.randint(0, nopts)):
+        o = rng.choice(OPTIONS)
+        ins = [o] if o == "-depth" else [o, small(rng)]
+        # only at word positions that start a primary or operator (never between a keyword and its argument:
+        # approximated by inserting before a word that starts with '-' or is punctuation, or at the end)
+        pos = [i for i, w in enumerate(ws) if w in "()!," or w.startswith("-")] + [len(ws)]
+        i = rng.choice(pos)
+        ws[i:i] = ins
+    return ws
